@@ -275,6 +275,11 @@ func (u *Unit) external(st *State, fr *Frame, in *ssa.Call, fn *ssa.Function, ar
 		}
 		return u.pureExternal(st, name, args, rt), true
 	case "crypto/sha512", "github.com/go-i2p/crypto/types", "github.com/go-i2p/crypto/kdf":
+		if name == "github.com/go-i2p/crypto/types.SHA256" {
+			if res, ok := u.hashModel(st, args, rt); ok {
+				return res, true
+			}
+		}
 		// A-CRYPTO: deterministic functions of their arguments, no writes to
 		// caller-visible memory (uninterpreted)
 		return u.pureExternal(st, name, args, rt), true
@@ -301,6 +306,10 @@ func (u *Unit) external(st *State, fr *Frame, in *ssa.Call, fn *ssa.Function, ar
 			return nil, true
 		case "(*crypto/sha256.digest).Write":
 			return nil, false
+		case "crypto/sha256.Sum256":
+			if res, ok := u.hashModel(st, args, rt); ok {
+				return res, true
+			}
 		}
 		return u.pureExternal(st, name, args, rt), true
 	}
